@@ -70,7 +70,8 @@ class C03(Prop):
         a = exprs(Opts(max_depth=d), None)
         b = exprs(Opts(max_depth=d, reals=True), None)
         nest = st.sampled_from(NESTS)
-        return st.tuples(st.one_of(a, a, b), nest).map(lambda t: {"ast": t[0], "nest": tuple(t[1])})
+        pm = exprs(Opts(reals=True, max_depth=2, deltas=True, consts=True, max_names=3), ("real", ()))
+        return st.tuples(st.one_of(a, a, b, pm), nest).map(lambda t: {"ast": t[0], "nest": tuple(t[1])})
 
     def describe(self, case):
         return f"[{'>'.join(case['nest'])}] {show(case['ast'])}"
